@@ -7,11 +7,19 @@
 //!                    and `BmffHash::verify_stream_hash` on that asset
 //!   level 3 e2e    : … → `sign_embeddable` → patch into the reserved free box → `Reader`
 //!
+//!   histories      : `update_hash_from_stream` called twice (`flushes=2`), the leaf size set or
+//!                    changed by `set_bmff_hash_fixed_leaf_size` / the hook accessor (`set:<bytes>`)
+//!   leaf budget    : `create_mms_from_mdat_leaves` (hook) and the whole placeholder workflow at the
+//!                    validator's `MAX_MERKLE_LEAVES_SIZE` boundary (`caps`), and
+//!                    `BmffHash::verify_stream_hash` on hand-made MerkleMaps at that boundary (`capv`)
+//!
 //! Requests (see lean/C2paModel/Model/C17.lean): the model never sees payload bytes, only chunk
 //! sizes; it answers with payload *segments* `off+len`.  Here every leaf digest of the
 //! implementation is named by the payload segment whose real SHA-256 it is (`name_digest`).
 //!   C17 acc   fixed=<bytes|-> calls=<id:<L|S>:size,…>  -> `id/leaves/rem/skip;…`
-//!   C17 final fixed=<bytes|-> calls=…                   -> `<maps> <ok|bad|nomerkle>`
+//!   C17 final fixed=<bytes|-> calls=… [flushes=n]       -> `<maps> <ok|bad|nomerkle>`
+//!   C17 caps  fixed= n=<leaves> hsz=                    -> `ok <count>` | toomany | err
+//!   C17 capv  fb= varn= vars= len= hsz= count=          -> toomany | rej | go
 
 use std::{
     collections::BTreeSet,
@@ -20,9 +28,9 @@ use std::{
 };
 
 use c2pa::{
-    assertions::{BmffHash, MerkleMap},
-    verif_hooks::c17::{find_bmff_hash, MerkleAccumulator},
-    Builder, Context, EphemeralSigner, Reader, Signer, SigningAlg, ValidationState,
+    assertions::{BmffHash, ExclusionsMap, MerkleMap, SubsetMap},
+    verif_hooks::c17::{create_mms_from_mdat_leaves, find_bmff_hash, MerkleAccumulator},
+    Builder, Context, EphemeralSigner, Error, Reader, Signer, SigningAlg, ValidationState,
 };
 use sha2::{Digest, Sha256};
 use vh::common::{fixtures, guarded, main_with, Rng, Run};
@@ -47,6 +55,10 @@ struct Case {
     /// (mdat id, chunk size); every mdat's sizes sum to its payload length
     calls: Vec<(usize, usize)>,
     mdats: Vec<Mdat>,
+    /// how often `update_hash_from_stream` is called (levels 2/3)
+    flushes: usize,
+    /// (index of the call before which it happens, leaf size in bytes): the leaf size setter
+    sets: Vec<(usize, usize)>,
 }
 
 impl Case {
@@ -54,11 +66,33 @@ impl Case {
         if self.calls.is_empty() {
             return "-".to_string();
         }
-        self.calls
-            .iter()
-            .map(|(id, n)| format!("{id}:{}:{n}", if self.mdats[*id].large { "L" } else { "S" }))
-            .collect::<Vec<_>>()
-            .join(",")
+        let mut out = vec![];
+        for (k, (id, n)) in self.calls.iter().enumerate() {
+            for (_, b) in self.sets.iter().filter(|s| s.0 == k) {
+                out.push(format!("set:{b}"));
+            }
+            out.push(format!("{id}:{}:{n}", if self.mdats[*id].large { "L" } else { "S" }));
+        }
+        out.join(",")
+    }
+
+    /// the setter is documented to be called before the first chunk; anything later is outside
+    /// the property (the oracles are then limited to "no panic" and model = code)
+    fn midstream(&self) -> bool {
+        self.sets.iter().any(|s| s.0 > 0)
+    }
+
+    /// the leaf size the whole history runs with (when it is not changed mid-stream)
+    fn eff_fixed(&self) -> Option<usize> {
+        self.sets.iter().filter(|s| s.0 == 0).last().map(|s| Some(s.1)).unwrap_or(self.fixed)
+    }
+
+    fn flushes_str(&self) -> String {
+        if self.flushes == 1 {
+            String::new()
+        } else {
+            format!(" flushes={}", self.flushes)
+        }
     }
 
     fn fixed_str(&self) -> String {
@@ -109,6 +143,18 @@ fn name_digest(pay: &[u8], len: usize, digest: &[u8], cursor: usize) -> String {
         }
     }
     format!("?{}", &hex::encode(digest)[..8])
+}
+
+/// like `name_digest` when the leaf length is not known (leaf size changed mid-stream)
+fn name_digest_anylen(pay: &[u8], digest: &[u8], cursor: usize) -> (String, usize) {
+    if digest.len() == 32 {
+        for len in 1..=pay.len().saturating_sub(cursor) {
+            if sha(&pay[cursor..cursor + len]) == digest {
+                return (format!("{cursor}+{len}"), len);
+            }
+        }
+    }
+    ("?".to_string(), 0)
 }
 
 fn name_bytes(pay: &[u8], b: &[u8], cursor: usize) -> String {
@@ -188,7 +234,7 @@ fn acc_oracle(c: &Case, acc: &MerkleAccumulator) -> Option<(String, String)> {
         let empty = vec![];
         let leaves = acc.merkle_leaves.get(&id).unwrap_or(&empty);
         let rem: &[u8] = acc.fixed_size_remainder.get(&id).map(|v| v.as_slice()).unwrap_or(&[]);
-        match c.fixed {
+        match c.eff_fixed() {
             Some(f) if f > 0 => {
                 let full = cov.len() / f;
                 let want: Vec<(u64, Vec<u8>)> = (0..full).map(|k| (f as u64, sha(&cov[k * f..(k + 1) * f]))).collect();
@@ -234,7 +280,14 @@ fn level1(run: &mut Run, c: &Case, tag: &str) {
     let req = format!("C17 acc fixed={} calls={}", c.fixed_str(), c.calls_str());
     let res = guarded(std::panic::AssertUnwindSafe(|| {
         let mut acc = new_acc(c.fixed);
-        for (id, chunk) in c.chunks() {
+        for (k, (id, chunk)) in c.chunks().into_iter().enumerate() {
+            for (_, b) in c.sets.iter().filter(|s| s.0 == k) {
+                if b % 1024 == 0 && *b > 0 {
+                    acc.set_fixed_size(b / 1024);
+                } else {
+                    acc.fixed_size = Some(*b);
+                }
+            }
             if acc.add_merkle_leaf(id, c.mdats[id].large, chunk).is_err() {
                 return Err(());
             }
@@ -242,7 +295,10 @@ fn level1(run: &mut Run, c: &Case, tag: &str) {
         Ok(acc)
     }));
     run.count(&format!("acc_{tag}"));
-    run.count(if c.fixed.is_some() { "acc_fixed" } else { "acc_variable" });
+    run.count(if c.eff_fixed().is_some() { "acc_fixed" } else { "acc_variable" });
+    if c.midstream() {
+        run.count("acc_leaf_size_changed_midstream");
+    }
     if c.calls.iter().any(|x| x.1 == 0) {
         run.count("acc_with_empty_chunk");
     }
@@ -257,17 +313,25 @@ fn level1(run: &mut Run, c: &Case, tag: &str) {
             if c.calls.len() >= 2 {
                 run.nontrivial(req);
             }
-            if let Some((class, detail)) = acc_oracle(c, &acc) {
-                run.fail(idx, &class, detail);
+            if !c.midstream() {
+                if let Some((class, detail)) = acc_oracle(c, &acc) {
+                    run.fail(idx, &class, detail);
+                }
             }
         }
         Ok(Err(())) => {
             let idx = run.case(req, "err".to_string());
-            run.fail(idx, "add-merkle-leaf-error", "add_merkle_leaf returned an error for a well-formed chunk sequence".to_string());
+            if c.midstream() {
+                // a refusal is an acceptable answer to a leaf size changed between chunks
+                run.count("acc_midstream_change_refused");
+            } else {
+                run.fail(idx, "add-merkle-leaf-error", "add_merkle_leaf returned an error for a well-formed chunk sequence".to_string());
+            }
         }
         Err(p) => {
             let idx = run.case(req, "panic".to_string());
-            run.fail(idx, "panic", format!("add_merkle_leaf panicked: {p}"));
+            let class = if c.midstream() { "leaf-size-change-panic" } else { "panic" };
+            run.fail(idx, class, format!("add_merkle_leaf panicked: {p}"));
         }
     }
 }
@@ -404,8 +468,15 @@ fn maps_str(c: &Case, maps: &[MerkleMap]) -> String {
         let mut cursor = if m.large { 0 } else { 8 };
         let mut hs = vec![];
         for (k, h) in mm.hashes.iter().enumerate() {
-            let len = lens.get(k).cloned().unwrap_or(0);
-            let nm = name_digest(&m.pay, len, h, cursor);
+            let mut len = lens.get(k).cloned().unwrap_or(0);
+            let nm = if c.midstream() && mm.variable_block_sizes.is_none() {
+                // leaves of mixed sizes under one fixed_block_size: find the length
+                let (nm, l) = name_digest_anylen(&m.pay, h, cursor);
+                len = l;
+                nm
+            } else {
+                name_digest(&m.pay, len, h, cursor)
+            };
             // the model prints the digest only (segment), not the stored size
             hs.push(if h.is_empty() { "e".to_string() } else { nm });
             cursor += len;
@@ -445,18 +516,27 @@ fn build(env: &Env, c: &Case) -> Result<Built, String> {
         None => {}
     }
     let mut nleaves = c.calls.len() + c.mdats.len();
-    if let Some(f) = c.fixed {
-        if f > 0 {
-            nleaves = c.mdats.iter().map(|m| m.pay.len() / f + 1).sum();
-        }
+    let minf = c.sets.iter().map(|s| s.1).chain(c.fixed).filter(|f| *f > 0).min();
+    if let Some(f) = minf {
+        nleaves = nleaves.max(c.mdats.iter().map(|m| m.pay.len() / f + 2).sum());
     }
-    for (id, chunk) in c.chunks() {
+    for (k, (id, chunk)) in c.chunks().into_iter().enumerate() {
+        for (_, b) in c.sets.iter().filter(|s| s.0 == k) {
+            if b % 1024 == 0 && *b > 0 {
+                builder.set_bmff_hash_fixed_leaf_size(b / 1024);
+            } else {
+                builder.bmff_hasher_for_verif().fixed_size = Some(*b);
+            }
+        }
         builder.hash_bmff_mdat_bytes(id, chunk, c.mdats[id].large).map_err(|e| format!("hash_bmff_mdat_bytes: {e}"))?;
     }
-    let reserve = placeholder.len() + 48 * nleaves + 2048;
+    let reserve = placeholder.len() + 48 * nleaves * c.flushes.max(1) + 2048;
     let (asset, free_off) = build_asset(env, c, reserve);
     let mut cur = Cursor::new(asset);
-    builder.update_hash_from_stream("video/mp4", &mut cur).map_err(|e| format!("update_hash_from_stream: {e}"))?;
+    // a caller may run the hashing step again (e.g. a retry after an I/O error)
+    for _ in 0..c.flushes.max(1) {
+        builder.update_hash_from_stream("video/mp4", &mut cur).map_err(|e| format!("update_hash_from_stream: {e}"))?;
+    }
     let asset = cur.into_inner();
     let mut bh = find_bmff_hash(&builder).map_err(|e| format!("find bmff hash: {e}"))?;
     // the version lives in the label (serde skips the field); read it the way a reader would
@@ -472,19 +552,29 @@ fn build(env: &Env, c: &Case) -> Result<Built, String> {
 }
 
 fn level2(run: &mut Run, env: &Env, c: &Case, tag: &str, e2e: bool) {
-    let req = format!("C17 final fixed={} calls={}", c.fixed_str(), c.calls_str());
+    let req = format!("C17 final fixed={} calls={}{}", c.fixed_str(), c.calls_str(), c.flushes_str());
     run.count(&format!("final_{tag}"));
+    if c.flushes > 1 {
+        run.count("final_update_hash_twice");
+    }
+    if c.midstream() {
+        run.count("final_leaf_size_changed_midstream");
+    }
     let built = guarded(std::panic::AssertUnwindSafe(|| build(env, c)));
     let b = match built {
         Ok(Ok(b)) => b,
         Ok(Err(e)) => {
             let idx = run.case(req, "err".to_string());
-            run.fail(idx, "workflow-error", e);
+            if c.midstream() && e.starts_with("hash_bmff_mdat_bytes") {
+                run.count("final_midstream_change_refused");
+            } else {
+                run.fail(idx, "workflow-error", e);
+            }
             return;
         }
         Err(p) => {
             let idx = run.case(req, "panic".to_string());
-            run.fail(idx, "panic", p);
+            run.fail(idx, if c.midstream() { "leaf-size-change-panic" } else { "panic" }, p);
             return;
         }
     };
@@ -512,10 +602,16 @@ fn level2(run: &mut Run, env: &Env, c: &Case, tag: &str, e2e: bool) {
     let vs = if maps.is_empty() { "nomerkle" } else if verdict.is_ok() { "ok" } else { "bad" };
     let idx = run.case(req.clone(), format!("{} {vs}", maps_str(c, &maps)));
     run.nontrivial(req);
+    if c.midstream() {
+        // outside the documented use: only "no panic" and model = code are checked
+        return;
+    }
     if let Err(e) = &verdict {
         // which input kind? (stable class for known_findings.json)
         let class = if c.mdats.len() > 1 && c.mdats.iter().enumerate().any(|(i, _)| c.covered(i).is_empty()) {
             "multi-mdat-with-uncovered-mdat"
+        } else if c.flushes > 1 {
+            "second-update-hash-breaks-binding"
         } else {
             "hash-binding-rejected"
         };
@@ -523,6 +619,7 @@ fn level2(run: &mut Run, env: &Env, c: &Case, tag: &str, e2e: bool) {
     }
     // leaves must not depend on the chunking (fixed) / must tile the payload (variable)
     if let Some((class, detail)) = maps_oracle(c, &maps) {
+        let class = if c.flushes > 1 { "second-update-hash-changes-maps".to_string() } else { class };
         run.fail(idx, &class, detail);
     }
     if e2e {
@@ -530,7 +627,13 @@ fn level2(run: &mut Run, env: &Env, c: &Case, tag: &str, e2e: bool) {
         match guarded(std::panic::AssertUnwindSafe(|| end_to_end(&b))) {
             Ok(Ok(())) => run.count("e2e_valid"),
             Ok(Err(e)) => {
-                let class = if verdict.is_err() && c.mdats.len() > 1 { "multi-mdat-with-uncovered-mdat" } else { "asset-not-valid" };
+                let class = if verdict.is_err() && c.mdats.len() > 1 && c.mdats.iter().enumerate().any(|(i, _)| c.covered(i).is_empty()) {
+                    "multi-mdat-with-uncovered-mdat"
+                } else if c.flushes > 1 {
+                    "second-update-hash-breaks-binding"
+                } else {
+                    "asset-not-valid"
+                };
                 run.fail(idx, class, format!("sign_embeddable → patch → Reader: {e}"));
             }
             Err(p) => run.fail(idx, "panic", p),
@@ -549,7 +652,7 @@ fn maps_oracle(c: &Case, maps: &[MerkleMap]) -> Option<(String, String)> {
             return Some(("mdat-without-merkle-map".to_string(), format!("mdat {id} has {} covered bytes but no MerkleMap", cov.len())));
         };
         let got: Vec<Vec<u8>> = mm.hashes.iter().map(|h| h.to_vec()).collect();
-        match c.fixed {
+        match c.eff_fixed() {
             Some(f) if f > 0 => {
                 let want: Vec<Vec<u8>> = cov.chunks(f).map(sha).collect();
                 if got != want || mm.count != want.len() {
@@ -573,6 +676,189 @@ fn maps_oracle(c: &Case, maps: &[MerkleMap]) -> Option<(String, String)> {
         }
     }
     None
+}
+
+// ---------------------------------------------------------------------------------------------
+// leaf-memory budget (`MAX_MERKLE_LEAVES_SIZE` = 32 MiB of digests per mdat)
+
+const MAX_MERKLE_LEAVES_SIZE: usize = 32 * 1024 * 1024;
+
+fn alg_of(hsz: usize) -> &'static str {
+    match hsz {
+        48 => "sha384",
+        64 => "sha512",
+        _ => "sha256",
+    }
+}
+
+/// signer side: `create_mms_from_mdat_leaves` on `n` leaves
+fn caps(run: &mut Run, fixed: Option<usize>, n: usize, hsz: usize) {
+    let req = format!("C17 caps fixed={} n={n} hsz={hsz}", fixed.map(|f| f.to_string()).unwrap_or("-".to_string()));
+    run.count("budget_signer");
+    let res = guarded(std::panic::AssertUnwindSafe(|| {
+        let mut leaves = std::collections::BTreeMap::new();
+        leaves.insert(0usize, vec![(1u64, Vec::<u8>::new()); n]);
+        create_mms_from_mdat_leaves(alg_of(hsz), &leaves, fixed)
+    }));
+    let fits = n * hsz <= MAX_MERKLE_LEAVES_SIZE;
+    match res {
+        Ok(Ok(v)) => {
+            let idx = run.case(req.clone(), format!("ok {}", v.first().map(|m| m.count).unwrap_or(0)));
+            run.nontrivial(req);
+            if !fits {
+                run.fail(idx, "over-budget-map-stored", format!("create_mms_from_mdat_leaves stores a MerkleMap with {n} leaves of {hsz} bytes; validate_merkle_maps_mdat_boxes refuses every such map (leaf memory over {MAX_MERKLE_LEAVES_SIZE} bytes)"));
+            }
+        }
+        Ok(Err(e)) => {
+            let over = matches!(e, Error::InvalidAsset(_));
+            let idx = run.case(req.clone(), if over { "toomany" } else { "err" }.to_string());
+            run.nontrivial(req);
+            if fits && fixed != Some(0) {
+                run.fail(idx, "within-budget-map-refused", format!("create_mms_from_mdat_leaves refuses {n} leaves of {hsz} bytes: {e}"));
+            }
+        }
+        Err(p) => {
+            let idx = run.case(req, "panic".to_string());
+            run.fail(idx, "panic", p);
+        }
+    }
+}
+
+/// validator side: a hand-made MerkleMap (wrong `count`, so no range is ever hashed) against an
+/// asset whose mdat has `len` bytes after the 16-byte exclusion
+fn capv(run: &mut Run, env: &Env, fb: Option<usize>, var: Option<(usize, usize)>, len: usize, hsz: usize, count: usize) {
+    let req = format!(
+        "C17 capv fb={} varn={} vars={} len={len} hsz={hsz} count={count}",
+        fb.map(|f| f.to_string()).unwrap_or("-".to_string()),
+        var.map(|v| v.0.to_string()).unwrap_or("-".to_string()),
+        var.map(|v| v.1).unwrap_or(0)
+    );
+    run.count("budget_validator");
+    let mut asset = env.ftyp.clone();
+    asset.extend_from_slice(&env.moov);
+    asset.extend_from_slice(&((len + 16) as u32).to_be_bytes());
+    asset.extend_from_slice(b"mdat");
+    asset.extend(std::iter::repeat(0x5au8).take(len + 8));
+    let mm = MerkleMap {
+        unique_id: 0,
+        local_id: 0,
+        count,
+        alg: Some(alg_of(hsz).to_string()),
+        init_hash: None,
+        hashes: c2pa::assertions::VecByteBuf(vec![serde_bytes::ByteBuf::from(vec![0u8; hsz])]),
+        fixed_block_size: fb.map(|f| f as u64),
+        variable_block_sizes: var.map(|(k, sz)| vec![sz as u64; k]),
+    };
+    let res = guarded(std::panic::AssertUnwindSafe(|| {
+        let mut bh = BmffHash::new("jumbf manifest", "sha256", None);
+        bh.set_bmff_version(3);
+        // the exclusion `update_hash_from_stream` adds for Merkle-hashed mdats
+        let mut mdat = ExclusionsMap::new("/mdat".to_owned());
+        mdat.subset = Some(vec![SubsetMap { offset: 16, length: 0 }]);
+        bh.add_exclusions(&mut vec![mdat]);
+        bh.set_merkle(vec![mm]);
+        let mut cur = Cursor::new(&asset);
+        bh.verify_stream_hash(&mut cur, None)
+    }));
+    let reply = match &res {
+        Ok(Ok(())) => "go",
+        Ok(Err(Error::InvalidAsset(_))) => "toomany",
+        Ok(Err(_)) => "rej",
+        Err(_) => "panic",
+    };
+    let idx = run.case(req.clone(), reply.to_string());
+    run.nontrivial(req);
+    if let Err(p) = res {
+        run.fail(idx, "panic", p);
+    }
+}
+
+/// the whole placeholder workflow with more chunks than the budget has leaves (variable sizes,
+/// public API only): either the signer refuses or the stored binding must verify
+fn over_budget_workflow(run: &mut Run, env: &Env, nchunks: usize) {
+    let req = format!("C17 caps fixed=- n={nchunks} hsz=32");
+    run.count("budget_workflow");
+    let pay = vec![0x42u8; nchunks + 8];
+    let c = Case { fixed: None, calls: vec![], mdats: vec![Mdat { large: false, pay: pay.clone() }], flushes: 1, sets: vec![] };
+    let res = guarded(std::panic::AssertUnwindSafe(|| -> Result<Result<(BmffHash, Vec<u8>), Error>, String> {
+        let ctx = Context::new().with_signer(SharedSigner(env.signer.clone()));
+        let mut builder = Builder::from_context(ctx).with_definition(DEFINITION).map_err(|e| format!("definition: {e}"))?;
+        let placeholder = builder.placeholder("video/mp4").map_err(|e| format!("placeholder: {e}"))?;
+        // the 8 header-exclusion bytes, then one byte per call
+        builder.hash_bmff_mdat_bytes(0, &pay[..8], false).map_err(|e| format!("hash_bmff_mdat_bytes: {e}"))?;
+        for b in pay[8..].chunks(1) {
+            builder.hash_bmff_mdat_bytes(0, b, false).map_err(|e| format!("hash_bmff_mdat_bytes: {e}"))?;
+        }
+        let (asset, _) = build_asset(env, &c, placeholder.len() + 2048);
+        let mut cur = Cursor::new(asset);
+        match builder.update_hash_from_stream("video/mp4", &mut cur) {
+            Err(e) => Ok(Err(e)),
+            Ok(_) => {
+                let mut bh = find_bmff_hash(&builder).map_err(|e| format!("find bmff hash: {e}"))?;
+                bh.set_bmff_version(3);
+                Ok(Ok((bh, cur.into_inner())))
+            }
+        }
+    }));
+    match res {
+        Ok(Ok(Err(e))) => {
+            let over = matches!(e, Error::InvalidAsset(_));
+            let idx = run.case(req.clone(), if over { "toomany" } else { "err" }.to_string());
+            run.nontrivial(req);
+            run.count("budget_workflow_refused");
+            if nchunks * 32 <= MAX_MERKLE_LEAVES_SIZE {
+                run.fail(idx, "within-budget-map-refused", format!("update_hash_from_stream refuses {nchunks} variable-size leaves: {e}"));
+            }
+        }
+        Ok(Ok(Ok((bh, asset)))) => {
+            let count = bh.merkle().and_then(|v| v.first().map(|m| m.count)).unwrap_or(0);
+            let idx = run.case(req.clone(), format!("ok {count}"));
+            run.nontrivial(req);
+            let mut cur = Cursor::new(&asset);
+            if let Err(e) = bh.verify_stream_hash(&mut cur, None) {
+                run.fail(idx, "over-budget-map-stored", format!("mdat payload of {} bytes delivered in {} calls (variable leaf sizes): update_hash_from_stream succeeds and stores {count} leaves, the stored BMFF hash then fails verification: {e}", pay.len(), nchunks + 1));
+            }
+        }
+        Ok(Err(e)) => {
+            let idx = run.case(req, "err".to_string());
+            run.fail(idx, "workflow-error", e);
+        }
+        Err(p) => {
+            let idx = run.case(req, "panic".to_string());
+            run.fail(idx, "panic", p);
+        }
+    }
+}
+
+fn budget(run: &mut Run, env: &Env, rng: &mut Rng, thorough: bool) {
+    let mut r = rng.fork();
+    for hsz in [32usize, 48, 64] {
+        let n0 = MAX_MERKLE_LEAVES_SIZE / hsz; // the largest leaf count within the budget
+        for n in [n0 - 1, n0, n0 + 1, n0 + 2 + r.below(5000) as usize, 1 + r.below(n0 as u64 / 4) as usize] {
+            let fixed = *r.pick(&[None, Some(2usize), Some(1024), Some(4096)]);
+            caps(run, fixed, n, hsz);
+            if n == n0 || n == n0 + 1 {
+                caps(run, if fixed.is_none() { Some(2048) } else { None }, n, hsz);
+            }
+        }
+        for fb in [2usize, 3] {
+            capv(run, env, Some(fb), None, fb * n0, hsz, 7); // n0 ranges: within
+            capv(run, env, Some(fb), None, fb * n0 + 1, hsz, 7); // n0 + 1: over
+            capv(run, env, Some(fb), None, fb * (n0 - 1) + 1, hsz, 7);
+        }
+        capv(run, env, Some(1), None, 4096, hsz, 7);
+        capv(run, env, None, Some((n0, 1)), n0, hsz, 7);
+        capv(run, env, None, Some((n0 + 1, 1)), n0 + 1, hsz, 7);
+        capv(run, env, None, Some((n0 + 1, 1)), n0 + 2, hsz, 7); // sizes do not sum to the region
+        capv(run, env, None, Some((n0 / 2, 2)), n0, hsz, n0 / 2 + 1);
+    }
+    capv(run, env, Some(0), None, 4096, 32, 7);
+    caps(run, Some(0), 10, 32);
+    // public API only, one byte per call
+    over_budget_workflow(run, env, MAX_MERKLE_LEAVES_SIZE / 32 + 1);
+    if thorough {
+        over_budget_workflow(run, env, MAX_MERKLE_LEAVES_SIZE / 32);
+    }
 }
 
 fn end_to_end(b: &Built) -> Result<(), String> {
@@ -695,12 +981,12 @@ fn random_case(r: &mut Rng, thorough: bool, max_pay: usize, max_mdats: u64, allo
         mdats.push(Mdat { large: r.chance(1, 4), pay: r.bytes(len) });
     }
     let calls = interleave(r, per);
-    Case { fixed, calls, mdats }
+    Case { fixed, calls, mdats, flushes: 1, sets: vec![] }
 }
 
 fn single(fixed: Option<usize>, large: bool, sizes: &[usize], r: &mut Rng) -> Case {
     let total: usize = sizes.iter().sum();
-    Case { fixed, calls: sizes.iter().map(|&n| (0usize, n)).collect(), mdats: vec![Mdat { large, pay: r.bytes(total) }] }
+    Case { fixed, calls: sizes.iter().map(|&n| (0usize, n)).collect(), mdats: vec![Mdat { large, pay: r.bytes(total) }], flushes: 1, sets: vec![] }
 }
 
 pub fn run(run: &mut Run, rng: &mut Rng) {
@@ -730,6 +1016,27 @@ pub fn run(run: &mut Run, rng: &mut Rng) {
         let c = single(*fixed, *large, sizes, &mut r0);
         level1(run, &c, "named");
         level2(run, &env, &c, "named", true);
+    }
+
+    // 0b. histories named in the review: the hashing step run twice with a buffered remainder,
+    //     the leaf size set before the first chunk, lowered below a buffered remainder, changed
+    for (fixed, large, sizes, flushes, sets) in [
+        (Some(16usize), false, vec![3usize, 40], 2usize, vec![]),
+        (Some(1024), false, vec![5, 3000], 2, vec![]),
+        (Some(16), true, vec![16, 16], 3, vec![]),
+        (None, false, vec![20, 0, 20], 2, vec![]),
+        (None, false, vec![30, 50], 1, vec![(0usize, 16usize)]),
+        (Some(64), true, vec![30, 50], 1, vec![(0, 1024)]),
+        (Some(8), true, vec![5, 1], 1, vec![(1, 4)]),
+        (Some(2048), false, vec![1500, 100, 2000], 1, vec![(1, 1024)]),
+        (Some(4), true, vec![6, 3], 1, vec![(1, 2)]),
+        (Some(4), false, vec![14, 3, 9], 2, vec![(2, 8)]),
+    ] {
+        let mut c = single(fixed, large, &sizes, &mut r0);
+        c.flushes = flushes;
+        c.sets = sets;
+        level1(run, &c, "history");
+        level2(run, &env, &c, "history", !c.midstream());
     }
 
     // 1. every split point 0..32 of the first three chunks (then the rest of the payload)
@@ -777,8 +1084,48 @@ pub fn run(run: &mut Run, rng: &mut Rng) {
         } else {
             random_case(&mut r, thorough, 4096, 3, false)
         };
+        let mut c = c;
+        // histories: the hashing step run again; the leaf size chosen through the setter
+        if r.chance(1, 4) {
+            c.flushes = 2 + r.below(2) as usize;
+        }
+        if r.chance(1, 6) {
+            c.sets = vec![(0, *r.pick(&[2usize, 5, 16, 64, 1024, 2048]))];
+        }
         level2(run, &env, &c, "random", k % e2e_every == 0);
     }
+
+    // 3b. the leaf size changed between chunks (outside the documented use): no panic, and
+    //     the model follows the code (refusal when a buffered partial leaf no longer fits)
+    let n3 = if thorough { 40_000 } else { 4_000 };
+    for k in 0..n3 {
+        let mut r = rng.fork();
+        let mut c = random_case(&mut r, thorough, 600, 2, true);
+        if c.fixed.is_none() {
+            c.fixed = Some(*r.pick(&[2usize, 3, 5, 8, 16, 64]));
+        }
+        let nsets = r.range(1, 2) as usize;
+        for _ in 0..nsets {
+            let at = r.range(1, c.calls.len().max(1) as u64) as usize;
+            let bytes = match r.below(4) {
+                0 => 1024,
+                1 => c.fixed.unwrap_or(4).saturating_sub(r.range(1, 3) as usize).max(1),
+                _ => *r.pick(&[1usize, 2, 3, 4, 5, 8, 16, 64]),
+            };
+            c.sets.push((at.min(c.calls.len().saturating_sub(1)), bytes));
+        }
+        c.sets.sort();
+        if !c.midstream() {
+            continue;
+        }
+        level1(run, &c, "setsize");
+        if k % 20 == 0 && c.sets.iter().all(|s| s.1 > 1) {
+            level2(run, &env, &c, "setsize", false);
+        }
+    }
+
+    // 5. the validator's leaf-memory budget, signer and validator side
+    budget(run, &env, rng, thorough);
 
     // 4. the fixture's real mdat payload, whole workflow (thorough)
     let nfix = if thorough { 12 } else { 2 };
@@ -805,6 +1152,8 @@ pub fn run(run: &mut Run, rng: &mut Rng) {
             fixed,
             calls: sizes.iter().map(|&n| (0usize, n)).collect(),
             mdats: vec![Mdat { large: false, pay: env.fixture_mdat.clone() }],
+            flushes: 1,
+            sets: vec![],
         };
         level2(run, &env, &c, "fixture", true);
     }
